@@ -47,6 +47,34 @@ def run_bounded(pid, tier, seed, budget=None):
     return {'crash': (r.stderr or r.stdout)[-3000:]}
 
 
+API_MODULES = ('dfa_algorithms', 'nfa_algorithms', 'pda_algorithms', 'tm_algorithms', 'cfg_algorithms', 'regexp_algorithms', 'language_algorithms', 'language_generator')
+ALLOWED_MUTATION = {'nfa_union': {'id_generator'}, 'nfa_repetition': {'id_generator'}, 'tm_do_transition': {'tape'}, 'remove_if': {'seq'}, 'gnfa_minimize': {'G'},
+                    'cfg_put_start_variable_in_front': {'G'}, '_copy_nfa_delta': {'delta'}, '_fresh_nfa_state': {'id_generator'}}
+
+
+def api_frames(V):
+    """frame obligations (effects back end) for every module-level function of the algorithm modules that is not *_in_place"""
+    import z3
+    from gvc.symexec import Obligation
+    an = V.analyzer(); obls = []
+    for name in sorted(an.funcs):
+        mod, fd, cls = an.funcs[name]
+        if mod not in API_MODULES or cls is not None or name.endswith('_in_place') or name.startswith(('random_', 'automaton_to_', 'parse_')): continue
+        s = an.summary(name)
+        allowed = ALLOWED_MUTATION.get(name, set())
+        for prm in s.params:
+            if prm in allowed: continue
+            lines = sorted({l for (q, d), ls in s.mutates.items() if q == prm for l in ls})
+            o = Obligation(name, 'frame/unchanged(%s)' % prm, 'frame', [], z3.BoolVal(not lines)); o.status = 'unsat' if not lines else 'unknown'; o.backend = 'effects'; o.ms = 0
+            o.output = 'effects:' + ('no mutation of any object reachable from %s' % prm if not lines else 'possible mutation at line(s) %s' % lines)
+            obls.append(o)
+        g = sorted(s.globals)
+        o = Obligation(name, 'frame/no-global-state-modified', 'frame', [], z3.BoolVal(not g)); o.status = 'unsat' if not g else 'unknown'; o.backend = 'effects'; o.ms = 0; o.output = 'effects:%s' % (g or 'none')
+        obls.append(o)
+    failed = [o for o in obls if o.status != 'unsat']
+    return {'fn': '<frames>', 'status': 'proved' if not failed else 'failed', 'obligations': obls, 'failed': failed, 'info': {'source_hash': 'n/a', 'lines': (0, 0)}}
+
+
 def known_open(pid):
     try: kf = json.load(open(KNOWN))
     except Exception: return []
@@ -76,7 +104,7 @@ def main(argv=None):
     results = {k: None for k in keys}
     # --- theory lemmas used by these contracts are proved on every run
     from gvc import induct
-    theories = sorted({th for k in keys for th in V.theories_of(REG.by_name[k])})
+    theories = sorted({th for k in keys if k in REG.by_name for th in V.theories_of(REG.by_name[k])})
     lemma_res = induct.prove_lemmas(theories, timeout=timeout)
     # --- deductive part
     todo_c = []
@@ -88,6 +116,9 @@ def main(argv=None):
     vr = V.verify_many(todo_c, timeout=timeout, keep_dir=os.path.join(ROOT, 'replays', 'smt'))
     for k in keys:
         if k in vr: results[k] = vr[k]
+    if spec.get('frames_all_api'):
+        results['<frames of all API functions>'] = api_frames(V)
+        keys = keys + ['<frames of all API functions>']
     retry = [o for r in results.values() if r['status'] == 'failed' for o in r['failed'] if o.kind != 'canary' and o.backend != 'effects']
     if retry:
         # second opinion with the thorough budget and every back end before anything is reported (hypotheses already include the theory)
@@ -100,7 +131,7 @@ def main(argv=None):
     # --- lock bookkeeping
     newlock = dict(lock)
     for k, r in results.items():
-        if r['status'] == 'proved':
+        if r['status'] == 'proved' and k in REG.by_name:
             newlock[k] = {'source_hash': r['info']['source_hash'], 'obligations': sorted(rel_name(o, r['info']['lines'][0]) for o in r['obligations'])}
     if a.update_lock:
         json.dump(newlock, open(LOCK, 'w'), indent=1, sort_keys=True)
@@ -121,7 +152,7 @@ def main(argv=None):
             else:
                 bviol.append(v)
     for k, r in results.items():
-        c = REG.by_name[k]
+        c = REG.by_name.get(k)
         if r['status'] == 'unbound':
             downgraded.append({'function': k, 'reason': r['reason']})
         elif r['status'] == 'failed':
@@ -203,13 +234,15 @@ def write_evidence(pid, tier, seed, spec, results, lemma_res, b, violations, bvi
     for o in dis: by_backend[o.backend] = by_backend.get(o.backend, 0) + 1
     fns = []
     for k, r in results.items():
-        c = REG.by_name[k]
+        c = REG.by_name.get(k)
+        if c is None:
+            fns.append({'function': k, 'status': r['status'], 'obligations': len(r['obligations']), 'discharged': len([o for o in r['obligations'] if o.status == 'unsat'])}); continue
         fns.append({'function': '%s.%s' % (c.module, k), 'status': r['status'], 'source_sha256_16': r.get('info', {}).get('source_hash'),
                     'obligations': len([o for o in r['obligations'] if o.kind != 'canary']), 'discharged': len([o for o in r['obligations'] if o.kind != 'canary' and o.status == 'unsat']),
                     'requires': c.requires, 'ensures': c.ensures, 'loop_invariants': sum(len(l['invariant']) for l in c.loops.values()),
                     'reason': r.get('reason')})
     from gvc import verify as V2
-    theories = sorted({th for k in results for th in V2.theories_of(REG.by_name[k])})
+    theories = sorted({th for k in results if k in REG.by_name for th in V2.theories_of(REG.by_name[k])})
     assumed = ['axiom[%s] %s' % (th, n) for th in theories for (tag, n, _f) in T.AXIOMS.get(th, []) if tag == 'assumed']
     lfp = ['least-fixpoint intro rules[%s] %s (leastness used only via explicit instances)' % (th, n) for th in theories for (tag, n, _f) in T.AXIOMS.get(th, []) if tag == 'lfp']
     all_proved = bool(results) and all(r['status'] == 'proved' for r in results.values()) and lem_ok == lem_total
